@@ -13,7 +13,7 @@ DEFAULTS = dict(
     p_eventless=0.25, p_internal=0.2, p_guard=0.6, min_trans=2, max_trans=14,
     p_send=0.25, p_state_send=0.08, p_notify=0.3, delays=(0, 0, 0, 0.125, 1, 1, 2, 5),
     contracts=False, p_contract=0.5, timed=False, timed_plain=0.0, mode=None, priorities=(-1, 0, 0, 0, 1, 2),
-    min_states=3, root_basic_ok=0.05, allow_inner_history=False, p_shared_text=0.0, p_active_call=0.0, p_twin=0.0, p_odd_names=0.0, p_hier_names=0.0,
+    min_states=3, root_basic_ok=0.05, allow_inner_history=False, p_shared_text=0.0, p_active_call=0.0, p_twin=0.0, p_odd_names=0.0, p_hier_names=0.0, p_short_names=0.15,
 )
 
 
@@ -88,10 +88,10 @@ ODD = ['n{0}', '{k}', 'a}b', '{', '%s', 'x%(y)s', "q'r", 'sp ace', 'dot.ted', 'a
        'n{0!r}', '$x', 'tab\tbed', 'é{è}', 'Wk', 'wk', 'WK', 'straße', 'STRASSE']
 
 
-def _names(rnd, k, p_odd=0.0):
+def _names(rnd, k, p_odd=0.0, p_short=0.15):
     if p_odd and rnd.random() < p_odd:
         # names with characters that mean something to str.format / % / YAML / shells: a name is just a name
-        names = _names(rnd, k)
+        names = _names(rnd, k, 0.0, 0.0)
         odd = rnd.sample(ODD, min(len(ODD), rnd.randint(3, 8)))
         for i, o in enumerate(odd):
             names[rnd.randrange(min(len(names), 14))] = o
@@ -100,7 +100,7 @@ def _names(rnd, k, p_odd=0.0):
             if n not in out:
                 out.append(n)
         return out + ['w%d' % i for i in range(k - len(out))]
-    if rnd.random() < 0.15:
+    if rnd.random() < p_short:
         # short names: single letters and pairs of letters (a name may be a substring / a character of another one)
         letters = rnd.sample(string.ascii_lowercase, 12)
         pool = list(letters) + [a + b for a in letters for b in letters if a != b]
@@ -140,7 +140,7 @@ def gen_chart(rnd, **kw):
 
 
 def _gen_structure(rnd, o):
-    names = iter(_names(rnd, 80, o.get('p_odd_names', 0.0)))
+    names = iter(_names(rnd, 80, o.get('p_odd_names', 0.0), o.get('p_short_names', 0.15)))
     st = {}
     order = []
 
